@@ -1004,6 +1004,53 @@ func c09Families(thorough bool) []*c09Case {
 		addCase(fmt.Sprintf("branches|%d", nb), fmt.Sprintf("repository with %d branches, documents on {none, first, last, first+last, all, around bit 32}", nb), false, rp)
 		addCase(fmt.Sprintf("branches|%d|merged", nb), fmt.Sprintf("repository with %d branches merged into a compound shard", nb), false, rp, other())
 	}
+	// branch positions: repositories of one compound shard list the same branch names at different
+	// positions; the last document of one repository and the first document of the next carry the
+	// same branch list (anything remembered about "the previous document's branches" is per repository)
+	{
+		layouts := [][]string{{"main", "release"}, {"main", "dev", "release"}, {"release", "main"}, {"dev"}}
+		mk := func(li int, first, last []string) *c09Repo {
+			r := c09BaseRepo(fmt.Sprintf("branchpos/r%d", li), uint32(700+li), 0)
+			for i, b := range layouts[li] {
+				r.Branches = append(r.Branches, zoekt.RepositoryBranch{Name: b, Version: fmt.Sprintf("v%d-%d", li, i)})
+			}
+			rp := &c09Repo{desc: r}
+			add := func(nm string, br []string) {
+				rp.docs = append(rp.docs, Document{Name: nm, Content: []byte(fmt.Sprintf("layout %d %s on %v\n", li, nm, br)), Branches: append([]string{}, br...), Language: "Text", Category: FileCategoryDefault})
+			}
+			if first != nil {
+				add("first.txt", first)
+			}
+			add("mid.txt", layouts[li][:1])
+			if last != nil {
+				add("last.txt", last)
+			}
+			return rp
+		}
+		has := func(li int, br []string) bool {
+			for _, b := range br {
+				ok := false
+				for _, x := range layouts[li] {
+					ok = ok || x == b
+				}
+				if !ok {
+					return false
+				}
+			}
+			return true
+		}
+		for _, shared := range [][]string{{"release"}, {"main"}, {"main", "release"}, {"release", "main"}, {"dev"}} {
+			for x := range layouts {
+				for y := range layouts {
+					if x == y || !has(x, shared) || !has(y, shared) {
+						continue
+					}
+					addCase(fmt.Sprintf("branchpos|%d-%d|%s|merged", x, y, strings.Join(shared, "+")),
+						fmt.Sprintf("branches %v then %v in one compound shard, boundary documents both on %v", layouts[x], layouts[y], shared), false, mk(x, nil, shared), mk(y, shared, nil))
+				}
+			}
+		}
+	}
 	// languages and categories
 	{
 		r := c09BaseRepo("lang/repo", 3, 1)
